@@ -206,10 +206,16 @@ def decide(idx, seed, tier, cls, given=None):
                 rewards = [[rng.choice([0, 2.0, 2.5, 0.25]) for _ in range(W)] for _ in range(L)]     # hand-made boards may carry floats
             pr, pl, pt = rng.choice(P_SOLVE), rng.choice(P_SOLVE), rng.choice(P_SOLVE)
             solve = True
+            if idx % 3 == 2:
+                # a board written as a constant: tuples of tuples (the entry point only indexes and iterates the rows)
+                moves, rewards, loose = tuple(tuple(r) for r in moves), tuple(tuple(r) for r in rewards), tuple(tuple(r) for r in loose)
+                res["stats"]["manual_tuple_boards"] = 1
             if given is not None:
                 moves, rewards, loose, pr, pl, pt = given["manual"]
+                if given.get("tuples"):
+                    moves, rewards, loose = tuple(tuple(r) for r in moves), tuple(tuple(r) for r in rewards), tuple(tuple(r) for r in loose)
             res["key"] = repr((moves, loose, rewards, pr, pl, pt))
-            case = {"manual": [moves, rewards, loose, pr, pl, pt], "cls": cls}
+            case = {"manual": [moves, rewards, loose, pr, pl, pt], "cls": cls, "tuples": isinstance(moves, tuple)}
             import copy as _copy
             board_before = _copy.deepcopy((moves, rewards, loose))
             if idx % 2 == 1:
